@@ -1,8 +1,155 @@
-(* C06 -- reader conformance.  Statements only. *)
-From P7 Require Import Prelude PyPrims Number Header Spec Assign.
+(* C06 -- reader conformance: any valid 7z layout is read as the format defines it.
+   Statements, `exact`, Print Assumptions only; the proofs are in theories/AssignProofs.v.
+   spec_plans (Spec.v): what the format says every entry is; impl_plans (Assign.v): what
+   py7zr's _real_get_contents / worker-id arithmetic / kind decision make of the parsed header;
+   embed (AssignProofs.v): the header graph py7zr's parser builds for a specification header
+   (SubStreamsInfo always present). *)
+From P7 Require Import Prelude PyPrims Number Header Spec Assign AssignProofs.
 Open Scope Z_scope.
 
-(* placeholder obligations (computation on a concrete header) until AssignProofs.v lands *)
 Example C06_spec_reads_minimal_header :
   match s_header 100 [1; 0] with Ok h => s_valid h = true /\ spec_plans h = [] | Err _ => False end.
 Proof. vm_compute. split; reflexivity. Qed.
+
+(* the conditions under which py7zr conforms, spelled out: structural validity, counts are counts,
+   and "directory by the format (empty stream, EmptyFile bit clear) <-> attributes defined with
+   FILE_ATTRIBUTE_DIRECTORY" for every entry *)
+Theorem C06_nice_spelled_out : forall h,
+  nice h = s_valid h
+           && forallb (fun n => 0 <=? n) (sh_nums h)
+           && forallb (fun p => Bool.eqb (pl_kind p =? 2)
+                                  (match pl_attr p with Some v => negb (Z.land v 16 =? 0) | None => false end))
+                      (spec_plans h).
+Proof. intros h. reflexivity. Qed.
+Print Assumptions C06_nice_spelled_out.
+
+(* A. every number of folders, sub-streams and entries: name, kind, folder, offset in folder,
+   size, CRC, mtime, attributes and lookup id of every entry are the format's *)
+Theorem C06_assign_conforms : forall h, nice h = true ->
+  exists ps, impl_plans (embed h) = Ok ps /\ plans_agree 0 (spec_plans h) ps = true.
+Proof. exact assign_conforms. Qed.
+Print Assumptions C06_assign_conforms.
+
+(* archives without MainStreamsInfo (py7zr: header.main_streams is None) *)
+Theorem C06_assign_conforms_nostreams : forall h, nice h = true -> sh_folders h = [] ->
+  exists ps, impl_plans (embed_nostreams h) = Ok ps /\ plans_agree 0 (spec_plans h) ps = true.
+Proof. exact assign_conforms_nostreams. Qed.
+Print Assumptions C06_assign_conforms_nostreams.
+
+(* the EmptyFile vector is not consulted by the assignment *)
+Theorem C06_impl_ignores_emptyfile_vector : forall st fl ef ef',
+  impl_plans (mkHeader st fl ef) = impl_plans (mkHeader st fl ef').
+Proof. exact impl_plans_ignores_emptyfiles. Qed.
+Print Assumptions C06_impl_ignores_emptyfile_vector.
+
+(* B. what remains necessary, and what the repairs made unnecessary *)
+Theorem C06_zero_folder_conforms :
+  nice w_zero_folder = true /\
+  exists ps, impl_plans (embed w_zero_folder) = Ok ps /\
+    map iplan_view ps = [(0, 0, 1, 0, 5); (1, 0, 4, 0, 3); (2, 2, -1, 0, 0); (3, 0, 4, 3, 4)] /\
+    plans_agree 0 (spec_plans w_zero_folder) ps = true.
+Proof. exact assign_zero_folder_conforms. Qed.
+Print Assumptions C06_zero_folder_conforms.
+
+Theorem C06_multifolder_id_conforms :
+  nice w_multi_id = true /\
+  exists ps, impl_plans (embed w_multi_id) = Ok ps /\ map ip_id ps = [0; 1; 2; 3] /\
+    plans_agree 0 (spec_plans w_multi_id) ps = true.
+Proof. exact assign_multifolder_id_conforms. Qed.
+Print Assumptions C06_multifolder_id_conforms.
+
+Theorem C06_negative_count_refuted :
+  s_valid w_negative = true /\ kinds_consistent w_negative = true /\ nums_nonneg w_negative = false /\
+  map pl_folder (spec_plans w_negative) = [1] /\
+  (exists ps, impl_plans (embed w_negative) = Ok ps /\ map ip_folder ps = [0]) /\
+  disagrees w_negative.
+Proof. exact assign_negative_count_refuted. Qed.
+Print Assumptions C06_negative_count_refuted.
+
+Theorem C06_dir_without_attribute_refuted :
+  s_valid w_dir_noattr = true /\ nums_nonneg w_dir_noattr = true /\ kinds_consistent w_dir_noattr = false /\
+  map pl_kind (spec_plans w_dir_noattr) = [0; 2] /\
+  (exists ps, impl_plans (embed w_dir_noattr) = Ok ps /\ map ip_kind ps = [0; 1]) /\
+  disagrees w_dir_noattr.
+Proof. exact assign_dir_without_attribute_refuted. Qed.
+Print Assumptions C06_dir_without_attribute_refuted.
+
+Theorem C06_kind_from_attribute_refuted :
+  (s_valid w_file_dirattr && nums_nonneg w_file_dirattr = true /\
+   map pl_kind (spec_plans w_file_dirattr) = [0; 1] /\
+   (exists ps, impl_plans (embed w_file_dirattr) = Ok ps /\ map ip_kind ps = [0; 2]) /\
+   disagrees w_file_dirattr) /\
+  (s_valid w_data_dirattr && nums_nonneg w_data_dirattr = true /\
+   map pl_kind (spec_plans w_data_dirattr) = [0] /\
+   (exists ps, impl_plans (embed w_data_dirattr) = Ok ps /\ map ip_kind ps = [2]) /\
+   disagrees w_data_dirattr).
+Proof. exact assign_kind_from_attribute_refuted. Qed.
+Print Assumptions C06_kind_from_attribute_refuted.
+
+Theorem C06_no_substreams_refuted :
+  (forall pk fs fl ef, existsb (fun e => negb (e_emptystream e)) fl = true ->
+     impl_plans (mkHeader (Some (mkStreams (Some pk) (Some fs) None)) (Some fl) ef) = Err EOther) /\
+  (exists h g, s_header 100 w_nosub_bytes = Ok h /\ nice h = true /\
+     map (fun p => (pl_kind p, pl_folder p, pl_offset p, pl_size p)) (spec_plans h) = [(0, 0, 0, 5)] /\
+     parse_header 100 w_nosub_bytes = Ok g /\ impl_plans g = Err EOther).
+Proof. exact assign_no_substreams_refuted. Qed.
+Print Assumptions C06_no_substreams_refuted.
+
+(* C. every member is delivered once, under its own index, from the right position: the members of
+   a folder, in archive order, occupy consecutive intervals from 0 to the sum of the folder's
+   sub-stream sizes, which for a header read by the specification reader is the folder's unpack size *)
+Theorem C06_extract_plan_complete : forall h, nice h = true ->
+  exists ps, impl_plans (embed h) = Ok ps /\
+    length ps = length (sh_files h) /\
+    (forall i e p, nth_error (sh_files h) i = Some e -> nth_error ps i = Some p ->
+       ip_id p = Z.of_nat i /\ ip_name p = e_name e /\ (ip_kind p =? 0) = negb (e_emptystream e)) /\
+    (forall p, In p ps -> ip_kind p = 0 -> 0 <= ip_folder p < zlen (sh_folders h)) /\
+    (forall f, (f < length (sh_folders h))%nat ->
+       let chunk := folder_chunk (sh_nums h) (sh_sizes h) f in
+       let ivs := map (fun p => (ip_offset p, ip_size p)) (filter (in_folder (Z.of_nat f)) ps) in
+       ivs = tiling 0 chunk /\ tiles 0 ivs (sumZ chunk) /\ zlen chunk = nth f (sh_nums h) 0).
+Proof. exact extract_plan_complete. Qed.
+Print Assumptions C06_extract_plan_complete.
+
+Theorem C06_tiling_positions : forall szs off k o s, nth_error (tiling off szs) k = Some (o, s) ->
+  o = off + sumZ (firstn k szs) /\ nth_error szs k = Some s.
+Proof. exact tiling_nth. Qed.
+Print Assumptions C06_tiling_positions.
+
+Theorem C06_extract_plan_tiles_unpack_size : forall h, nice h = true ->
+  fills (sh_nums h) (sh_folders h) (sh_sizes h) ->
+  exists ps, impl_plans (embed h) = Ok ps /\
+    forall f fo, nth_error (sh_folders h) f = Some fo -> 1 <= nth f (sh_nums h) 0 ->
+      exists total, sfolder_unpack_size fo = Ok total /\
+        tiles 0 (map (fun p => (ip_offset p, ip_size p)) (filter (in_folder (Z.of_nat f)) ps)) total.
+Proof. exact extract_plan_tiles_unpack_size. Qed.
+Print Assumptions C06_extract_plan_tiles_unpack_size.
+
+Theorem C06_spec_reader_sizes_fill_folders : forall lim bs h, s_header lim bs = Ok h -> nums_nonneg h = true ->
+  fills (sh_nums h) (sh_folders h) (sh_sizes h).
+Proof. exact s_header_fills. Qed.
+Print Assumptions C06_spec_reader_sizes_fill_folders.
+
+(* D. non-vacuity *)
+Example C06_nice_example : nice w_nice = true /\ fills (sh_nums w_nice) (sh_folders w_nice) (sh_sizes w_nice).
+Proof. exact nice_example. Qed.
+Example C06_nice_example_plans :
+  exists ps, impl_plans (embed w_nice) = Ok ps /\
+    map (fun p => (ip_id p, ip_kind p, ip_folder p, ip_offset p, ip_size p, ip_crc p)) ps =
+    [(0, 2, -1, 0, 0, None); (1, 0, 0, 0, 3, Some 11); (2, 1, -1, 0, 0, None); (3, 0, 0, 3, 4, None);
+     (4, 2, -1, 0, 0, None); (5, 1, -1, 0, 0, None);
+     (6, 0, 2, 0, 1, Some 14); (7, 0, 2, 1, 2, None); (8, 2, -1, 0, 0, None); (9, 0, 2, 3, 3, Some 16);
+     (10, 2, -1, 0, 0, None)] /\
+    plans_agree 0 (spec_plans w_nice) ps = true.
+Proof. exact nice_example_plans. Qed.
+Example C06_nice_read_example :
+  exists h, s_header 100 w_read_bytes = Ok h /\ nice h = true /\
+    map (fun p => (pl_kind p, pl_folder p, pl_offset p, pl_size p)) (spec_plans h) =
+      [(0, 0, 0, 2); (2, -1, 0, 0); (0, 0, 2, 3)] /\
+    exists g, parse_header 100 w_read_bytes = Ok g /\ impl_plans g = impl_plans (embed h).
+Proof. exact nice_read_example. Qed.
+Example C06_nice_nostreams_example :
+  let h := mkSHeader 0 [] [] [] [] [] [] [w_dir 100 (Some (Some 16)); w_dir 101 None] [false; true] in
+  nice h = true /\ sh_folders h = [] /\
+  exists ps, impl_plans (embed_nostreams h) = Ok ps /\ map iplan_view ps = [(0, 2, -1, 0, 0); (1, 1, -1, 0, 0)].
+Proof. exact nice_nostreams_example. Qed.
